@@ -8,7 +8,6 @@ Import ListNotations.
 Local Open Scope string_scope.
 Definition heap_unproven : list string := [
   "deepali/core/bspline.py:subdivide_cubic_bspline";
-  "deepali/core/flow.py:compose_flows";
   "deepali/core/flow.py:divergence";
   "deepali/core/flow.py:divergence_free_flow";
   "deepali/core/flow.py:flow_derivatives";
@@ -17,7 +16,6 @@ Definition heap_unproven : list string := [
   "deepali/core/functional.py:as_one_hot_tensor";
   "deepali/core/functional.py:batched_index_select";
   "deepali/core/functional.py:circle_image";
-  "deepali/core/functional.py:compose_flows";
   "deepali/core/functional.py:conv";
   "deepali/core/functional.py:conv1d";
   "deepali/core/functional.py:divergence";
